@@ -554,6 +554,14 @@ def obligations(tier):
             obs.append(_DOb(PID, f"{PID}/callee-contract/{parts[1]}/every row update is the exact minimiser of its one-row problem" + ob.name[ob.name.index("["):], ob.function, ob.inputs, ob.call, claims,
                             params=ob.params, pre=ob.pre, instance=dict(ob.instance, source="C13"), clause="exact coordinate minimisation (hypothesis of the descent lemma L1), plain / l1 / ridge objective",
                             solver_timeout_ms=ob.solver_timeout_ms, check_domain=ob.check_domain, max_paths=ob.max_paths))
+    # ====================================================================== PARAFAC2 line search x non-negativity: descent of the sweep that follows an accepted jump needs the
+    # jumped iterate to lie in the constraint set of the inner non-negative solver (every mode in nn_modes, mode 1 included with 'all'); the clipping obligations
+    # of C10 on _BroThesisLineSearch.line_step are discharged here too
+    from . import c10 as _c10
+    for ob in _c10.obligations(tier):
+        if type(ob) is GOb and ob.function.endswith("_BroThesisLineSearch.line_step"):
+            obs.append(GOb(PID, f"{PID}/" + ob.name.split("/", 1)[1], ob.function, ob.setup, ob.call, ob.post, tenalg=ob.tenalg, assumptions=ob.assumptions, side_nonzero=ob.side_nonzero,
+                           instance=dict(ob.instance, source="C10"), clause="the line-search iterate is feasible for the inner solver's constraint set (hypothesis of descent after an accepted jump)", forall=list(ob.forall), enumerated=list(ob.enumerated)))
     # ====================================================================== bounded stand-in (never counted as proved): end-to-end native survey - the real
     # entry points, unstubbed, on seeded tensors; a cross-check of the composed contracts on what they assume away (degenerate data, option combinations)
     from .c09 import BoundedOb
